@@ -148,50 +148,43 @@ Proof.
   - simpl. auto.
 Qed.
 
+(* PrepareToEncode makes the history irrelevant *)
+Lemma cbe_enc_call_any st es : cbe_enc_call st es = cbe_enc_call Cbe.enc_init es.
+Proof. reflexivity. Qed.
+
+Lemma cbe_enc_reuse h es :
+  run_reused Cbe.enc_init cbe_enc_call h es = run_fresh Cbe.enc_init cbe_enc_call es.
+Proof. unfold run_reused, run_fresh. rewrite cbe_enc_call_any. reflexivity. Qed.
+
+(* What the reset is needed for.  Without it the array state of the previous
+   document decides: the encoder answers like a fresh one exactly as long as no
+   OnArrayBegin is pending ... *)
 Definition enc_clean (st : Cbe.enc_state) : Prop := enc_dangling st = false.
-(* a document that a fresh encoder finishes without a pending array begin *)
-Definition enc_closes (es : list event) : Prop :=
-  enc_dangling (fst (cbe_enc_call Cbe.enc_init es)) = false.
 
 Lemma enc_clean_eqv st : enc_clean st -> enc_eqv st Cbe.enc_init.
 Proof. unfold enc_clean, enc_dangling. intro H. split; simpl; [exact H | rewrite H; discriminate]. Qed.
 
-Lemma cbe_enc_obs st es : enc_clean st ->
-  snd (cbe_enc_call st es) = snd (cbe_enc_call Cbe.enc_init es).
-Proof. intro H. apply enc_run_eqv, enc_clean_eqv, H. Qed.
+Lemma cbe_enc_noreset_clean h es :
+  enc_dangling (run_hist cbe_enc_call_noreset Cbe.enc_init h) = false ->
+  run_reused Cbe.enc_init cbe_enc_call_noreset h es = run_fresh Cbe.enc_init cbe_enc_call_noreset es.
+Proof. intro H. unfold run_reused, run_fresh, cbe_enc_call_noreset. apply enc_run_eqv, enc_clean_eqv, H. Qed.
 
-Lemma cbe_enc_step st es : enc_clean st -> enc_closes es -> enc_clean (fst (cbe_enc_call st es)).
-Proof.
-  intros H C. destruct (enc_run_eqv es st Cbe.enc_init 0 [] (enc_clean_eqv st H)) as [[E _] _].
-  unfold enc_clean, enc_dangling, enc_closes, enc_dangling, cbe_enc_call in *. congruence.
-Qed.
-
-Lemma cbe_enc_reuse_when h es : Forall enc_closes h ->
-  run_reused Cbe.enc_init cbe_enc_call h es = run_fresh Cbe.enc_init cbe_enc_call es.
-Proof.
-  apply (reuse_eq_fresh_when Cbe.enc_init cbe_enc_call enc_clean enc_closes).
-  - reflexivity.
-  - intros; apply cbe_enc_obs; assumption.
-  - intros; apply cbe_enc_step; assumption.
-Qed.
-
-(* the same, stated on the instance: no pending array begin when the document starts *)
-Lemma cbe_enc_reuse_clean h es : enc_dangling (run_hist cbe_enc_call Cbe.enc_init h) = false ->
-  run_reused Cbe.enc_init cbe_enc_call h es = run_fresh Cbe.enc_init cbe_enc_call es.
-Proof. intro H. apply cbe_enc_obs. exact H. Qed.
-
-(* a document aborted after an array begin, then a complete document: a stray array header *)
-Lemma cbe_enc_refuted : exists h es,
-  run_reused Cbe.enc_init cbe_enc_call h es <> run_fresh Cbe.enc_init cbe_enc_call es.
+(* ... and a document aborted after an array begin leaves a stray array header in the next one *)
+Lemma cbe_enc_noreset_refuted : exists h es,
+  run_reused Cbe.enc_init cbe_enc_call_noreset h es <> run_fresh Cbe.enc_init cbe_enc_call_noreset es.
 Proof.
   exists [[EBeginDoc; EVersion 0; EList; EArrayBegin CbeConsts.cbeAT_Uint8]], [EBeginDoc; EVersion 0; ENull; EEndDoc].
   vm_compute. discriminate.
 Qed.
-Example cbe_enc_refuted_bytes :
+
+(* the pinned witness: with the reset both give 81 00 7d; without it the reused one gave 81 00 7d 93 *)
+Example cbe_enc_witness :
   run_reused Cbe.enc_init cbe_enc_call [[EBeginDoc; EVersion 0; EList; EArrayBegin CbeConsts.cbeAT_Uint8]]
-             [EBeginDoc; EVersion 0; ENull; EEndDoc] = (None, [129; 0; 125; 147]) /\
-  run_fresh Cbe.enc_init cbe_enc_call [EBeginDoc; EVersion 0; ENull; EEndDoc] = (None, [129; 0; 125]).
-Proof. vm_compute. split; reflexivity. Qed.
+             [EBeginDoc; EVersion 0; ENull; EEndDoc] = (None, [129; 0; 125]) /\
+  run_fresh Cbe.enc_init cbe_enc_call [EBeginDoc; EVersion 0; ENull; EEndDoc] = (None, [129; 0; 125]) /\
+  run_reused Cbe.enc_init cbe_enc_call_noreset [[EBeginDoc; EVersion 0; EList; EArrayBegin CbeConsts.cbeAT_Uint8]]
+             [EBeginDoc; EVersion 0; ENull; EEndDoc] = (None, [129; 0; 125; 147]).
+Proof. vm_compute. repeat split. Qed.
 
 (* ------------------------------------------------------------------ *)
 (* 5. Type caches                                                       *)
@@ -1695,13 +1688,13 @@ Proof.
   intro H. unfold cte_marshaler_init, cte_marshaler_call. apply pair_reuse; [apply cache_reuse|apply cte_reuse, H].
 Qed.
 
-Lemma cbe_marshaler_reuse_when h op : Forall enc_closes (map snd h) ->
+Lemma cbe_marshaler_reuse h op :
   run_reused cbe_marshaler_init cbe_marshaler_call h op = run_fresh cbe_marshaler_init cbe_marshaler_call op.
 Proof.
-  intro H. unfold cbe_marshaler_init, cbe_marshaler_call. apply pair_reuse; [apply cache_reuse|apply cbe_enc_reuse_when, H].
+  unfold cbe_marshaler_init, cbe_marshaler_call. apply pair_reuse; [apply cache_reuse|apply cbe_enc_reuse].
 Qed.
 
-(* the five statements together fail (the CBE encoder's alone does) *)
+(* the five statements together fail (the CTE encoder's does, for streams without OnBeginDocument) *)
 Lemma full_refuted :
   ~ ((forall cfg history es,
         run_reused init_rctx (rules_call cfg) history es = run_fresh init_rctx (rules_call cfg) es) /\
@@ -1714,5 +1707,5 @@ Lemma full_refuted :
      (forall dynamic history t,
         run_reused cache_init (cache_call dynamic) history t = run_fresh cache_init (cache_call dynamic) t)).
 Proof.
-  intros (_ & _ & H & _). destruct cbe_enc_refuted as [h [es N]]. apply N, H.
+  intros (_ & _ & _ & H & _). destruct cte_refuted as [h [es N]]. apply N, H.
 Qed.
